@@ -132,8 +132,13 @@ def aggregate(results):
                 agg["counters"][k] = agg["counters"].get(k, 0) + v
         for f, ls in r.get("lines", {}).items():
             agg["lines"].setdefault(f, set()).update(ls)
-    # samples: round-robin from the workers so that they are diverse
-    pools = [list(r["samples"]) for r in results]
+    # samples: round-robin over case kinds so that they are diverse
+    bykind = {}
+    for r in results:
+        for smp in r["samples"]:
+            key = (smp.get("kind") or smp.get("fn") or smp.get("backend")) if isinstance(smp, dict) else None
+            bykind.setdefault(str(key), []).append(smp)
+    pools = [bykind[k] for k in sorted(bykind)]
     while any(pools) and len(agg["samples"]) < 5:
         for p in pools:
             if p and len(agg["samples"]) < 5:
